@@ -28,6 +28,8 @@ const (
 	layoutFile = "oci-layout"
 	blobsDir   = "blobs"
 	uploadDir  = "_uploads"
+	// repoNameMax is the longest repository name accepted by the directory store.
+	repoNameMax = 255
 )
 
 var (
